@@ -825,8 +825,210 @@ fn check_arb_index(c: &ArbIndexCase) -> Verdict {
     fails.finish(Pass::new(!c.gzi.is_empty() || !c.crai.is_empty() || !c.fai.is_empty(), key_of(c)))
 }
 
+// ---------------------------------------------------------------------------------------------
+// CRAM block codecs and integer codings on hostile streams (through the H2a hook)
+
+/// One valid compressed stream (a generated input run through noodles' own encoder) and its dense
+/// mutant family, handed to the decoder with the sizes a CRAM block header would supply.
+#[derive(Clone, Debug, Serialize, Deserialize)]
+pub struct CodecCase {
+    /// selects the codec (index into `c08::DECODE_ARBITRARY_IDS`)
+    pub codec: u8,
+    pub data: super::c08::Data,
+    /// option bits for rANS Nx16 / the arithmetic coder, order for rANS 4x8, level for the general ones
+    pub flags: u8,
+    pub seed: u32,
+    /// restrict to one mutant (replay files)
+    pub only: Option<u32>,
+}
+
+fn codec_stream(c: &CodecCase) -> Option<(u8, Vec<u8>, usize)> {
+    use super::c08::{self, Out, guard};
+    use noodles_cram::codecs::{aac, rans_4x8, rans_nx16};
+    use noodles_cram::verif as nv;
+    let id = c08::DECODE_ARBITRARY_IDS[c.codec as usize % c08::DECODE_ARBITRARY_IDS.len()];
+    let mut x = c.data.expand();
+    x.truncate(700);
+    let flags = c.flags & !0x02;
+    let enc: Out<Vec<u8>> = match id {
+        1 => guard(|| nv::gzip_encode(flate2::Compression::new((c.flags % 10) as u32), &x)),
+        2 => guard(|| nv::bzip2_encode(bzip2::Compression::new(1 + (c.flags % 9) as u32), &x)),
+        3 => guard(|| nv::lzma_encode((c.flags % 10) as u32, &x)),
+        4 => guard(|| nv::rans_4x8_encode(if c.flags & 1 != 0 { rans_4x8::Order::One } else { rans_4x8::Order::Zero }, &x)),
+        5 => guard(|| nv::rans_nx16_encode(rans_nx16::Flags::from(flags), &x)),
+        6 => guard(|| nv::aac_encode(aac::Flags::from(flags), &x)),
+        7 => {
+            // quality-like symbols in records of a length derived from the flags
+            let q: Vec<u8> = x.iter().map(|b| b % 64).collect();
+            let rl = 1 + (c.flags as usize % 37);
+            let mut lens: Vec<usize> = std::iter::repeat(rl).take(q.len() / rl).collect();
+            if q.len() % rl != 0 {
+                lens.push(q.len() % rl);
+            }
+            x = q;
+            guard(|| nv::fqzcomp_encode(&lens, &x))
+        }
+        8 => {
+            // NUL-terminated names made of the data: letters, digits and separators
+            let mut names = Vec::new();
+            for (i, chunk) in x.chunks(1 + (c.flags as usize % 23)).enumerate().take(40) {
+                names.extend(chunk.iter().map(|b| b"abcXYZ0123456789:_./-"[*b as usize % 21]));
+                names.extend(format!(":{}", i * (1 + c.flags as usize % 7)).bytes());
+                names.push(0);
+            }
+            x = names;
+            guard(|| nv::name_tokenizer_encode(&x))
+        }
+        16 => {
+            let n = i32::from_le_bytes([x.first().copied().unwrap_or(0), x.get(1).copied().unwrap_or(0), x.get(2).copied().unwrap_or(0), x.get(3).copied().unwrap_or(0)]);
+            guard(|| {
+                let mut v = Vec::new();
+                nv::write_itf8(&mut v, n).map(|_| v)
+            })
+        }
+        17 => {
+            let mut b = [0u8; 8];
+            for (i, s) in x.iter().take(8).enumerate() {
+                b[i] = *s;
+            }
+            guard(|| {
+                let mut v = Vec::new();
+                nv::write_ltf8(&mut v, i64::from_le_bytes(b)).map(|_| v)
+            })
+        }
+        _ => {
+            let n = u32::from_le_bytes([x.first().copied().unwrap_or(0), x.get(1).copied().unwrap_or(0), x.get(2).copied().unwrap_or(0), x.get(3).copied().unwrap_or(0)]);
+            guard(|| {
+                let mut v = Vec::new();
+                nv::write_uint7(&mut v, n).map(|_| v)
+            })
+        }
+    };
+    match enc {
+        // encoder defects are C08's subject: no base stream, no case
+        Out::Ok(e) if !e.is_empty() => Some((id, e, x.len())),
+        _ => None,
+    }
+}
+
+fn codec_family(base_len: usize, seed: u32) -> Vec<Mutation> {
+    let mut out = Vec::new();
+    let mut r = XorShift::new(seed as u64 + 7654321);
+    for pos in 0..base_len {
+        for sel in 0..BYTE_VALUES as u8 {
+            out.push(Mutation::Byte { pos, sel });
+        }
+        let x = r.next();
+        out.push(Mutation::Word { pos, width: 2, val: WORD_VALUES[(x % 8) as usize] });
+        out.push(Mutation::Word { pos, width: 4, val: WORD_VALUES[((x >> 8) % 12) as usize] });
+        out.push(Mutation::DeleteByte(pos));
+        out.push(Mutation::DupByte(pos));
+        out.push(Mutation::Truncate(pos));
+    }
+    for _ in 0..24 {
+        let keep = [0usize, 1, 2, 4, 9, 16][(r.next() % 6) as usize].min(base_len);
+        out.push(Mutation::Noise { keep, len: (r.next() % 300) as usize, seed: r.next() });
+    }
+    out
+}
+
+const CODEC_MAX_DECLARED: u64 = 1 << 16;
+const CODEC_MUTANTS_PER_CASE: usize = 400;
+
+fn check_codec(c: &CodecCase) -> Verdict {
+    use super::c08;
+    c08::limit_memory();
+    let Some((id, base, raw_len)) = codec_stream(c) else {
+        return Ok(Pass::new(false, key_of(c)).label("no-base-stream(encoder refused)"));
+    };
+    let name = ["?", "gzip", "bzip2", "lzma", "rans4x8", "rans_nx16", "aac", "fqzcomp", "name_tokenizer"].get(id as usize).copied().unwrap_or(match id {
+        16 => "itf8",
+        17 => "ltf8",
+        _ => "uint7",
+    });
+    let muts = codec_family(base.len(), c.seed);
+    let mut fails = Fails::new();
+    let (mut n, mut bombs, mut decoded_ok) = (0u64, 0u64, 0u64);
+    // at most CODEC_MUTANTS_PER_CASE mutants of a family are run (a stride through the family that
+    // depends on the seed); replay files name the mutant by its index in the whole family
+    let range: Vec<usize> = match c.only {
+        Some(k) if (k as usize) < muts.len() => vec![k as usize],
+        Some(_) => vec![],
+        None if muts.len() <= CODEC_MUTANTS_PER_CASE => (0..muts.len()).collect(),
+        None => {
+            let stride = muts.len().div_ceil(CODEC_MUTANTS_PER_CASE);
+            ((c.seed as usize % stride)..muts.len()).step_by(stride).collect()
+        }
+    };
+    for i in range {
+        let m = apply(&base, &muts[i]);
+        // a stream may announce any size; one that announces more than 64 KiB (for inputs of at most 700 bytes) is a decompression
+        // bomb the format permits (time and memory are not this property's subject): not run
+        if c08::declared_size(id, &m).is_some_and(|d| d > CODEC_MAX_DECLARED) {
+            bombs += 1;
+            continue;
+        }
+        // the uncompressed size the enclosing block header would state: the true one, and for some
+        // mutants one that disagrees with the stream
+        let hint = match i % 5 {
+            0 => raw_len + 1,
+            1 => raw_len.saturating_sub(1),
+            _ => raw_len,
+        };
+        n += 1;
+        match panics::catch(|| c08::decode_arbitrary(id, &m, hint)) {
+            Ok(Ok(_)) => decoded_ok += 1,
+            Ok(Err(_)) => {}
+            Err(info) => {
+                if info.in_harness() {
+                    fails.push_fail(Fail::new(shard::HARNESS_PANIC, info.describe()));
+                } else {
+                    fails.push_fail(Fail::new(info.sig(), format!("{} — {name} decoder on mutant #{i} {:?} of a {}-byte stream (size hint {hint})", info.describe(), muts[i], base.len())).with_patch(serde_json::json!({"only": i})));
+                }
+            }
+        }
+        if fails.0.len() >= 24 {
+            break;
+        }
+    }
+    fails.finish(
+        Pass::new(n > 0, key_of(c))
+            .evals(n.max(1))
+            .label(name)
+            .label_if(decoded_ok > 0, "some-mutants-decode")
+            .label_if(bombs > 0, "oversize-announcements-not-run")
+            .label_if(base.len() > 64, "stream>64B"),
+    )
+}
+
+fn codec_strategy(_tier: Tier) -> BoxedStrategy<CodecCase> {
+    use super::c08::Data;
+    let data = prop_oneof![
+        1 => proptest::collection::vec(any::<u8>(), 0..24).prop_map(Data::Lit),
+        4 => (0u8..11, prop_oneof![0u32..40, 40u32..700], any::<u32>(), prop_oneof![1u16..5, 1u16..257]).prop_map(|(class, len, seed, k)| Data::Gen { class, len, seed, k }),
+    ];
+    (0u8..11, data, any::<u8>(), any::<u32>()).prop_map(|(codec, data, flags, seed)| CodecCase { codec, data, flags, seed, only: None }).boxed()
+}
+
 pub fn property() -> Property {
     let mut subs: Vec<Box<dyn DynSub>> = Vec::new();
+    subs.push(
+        sub(
+            "codec-streams",
+            "one case = one valid compressed stream of a CRAM block codec / integer coding (gzip, bzip2, lzma, rANS 4x8, rANS Nx16, arithmetic coder, fqzcomp, name tokenizer, ITF8, LTF8, uint7; noodles' own encoder on a generated input ≤700 bytes) and its dense mutant family (6 substitutions, 2 boundary words, delete, duplicate, truncate at every position, noise tails), decoded with the true and with off-by-one block sizes (at most 400 mutants per stream, by a seeded stride); evaluations counts decodes; non-trivial = ≥1 decode ran; streams announcing more than 64 KiB of output are not run",
+            codec_strategy,
+            check_codec,
+            320,
+            8_000,
+        )
+        .with(|o| {
+            o.isolate = true;
+            o.hang_is_violation = true;
+            o.case_budget_s = 60;
+            o.max_shrink_iters = 0;
+        })
+        .boxed(),
+    );
     for t in TARGETS {
         let (q, th) = match t.name {
             "cram-sealed" | "cram-file" => (6, 200),
@@ -888,7 +1090,7 @@ pub fn property() -> Property {
         assumptions: vec![
             "a panic is attributed to noodles when its location is outside the harness sources (dependencies called by noodles included)".into(),
             "successful large allocations are not failures; watchdog expiry counts only when reproduced alone with the 10× budget".into(),
-            "CRAM codec decoders on arbitrary bytes are covered by the codec sub-checks once the C08 module is integrated".into(),
+            "codec-streams: a stream that announces more than 64 KiB of output is not run (the format permits it; time and memory are not this property's subject)".into(),
         ],
         subs,
         max_parallel: 8,
